@@ -311,7 +311,7 @@ def verify_replay_fresh(prop, path, signature):
 
 
 def check_main(engine_name, prop, tier, base_seed, cfg, nruns, workers,
-               wall_budget, evidence_fn, max_report=6):
+               wall_budget, evidence_fn, max_report=6, first_index=0):
     """Run the batch, handle violations, write evidence, return exit code."""
     import importlib
     eng = importlib.import_module('engines.' + engine_name)
@@ -319,7 +319,7 @@ def check_main(engine_name, prop, tier, base_seed, cfg, nruns, workers,
     print(f'VERIF_SEED={base_seed} property={prop} engine={engine_name} '
           f'tier={tier} runs={nruns} workers={workers}', flush=True)
     results, truncated = run_batch(engine_name, prop, base_seed, cfg, nruns,
-                                   workers, wall_budget)
+                                   workers, wall_budget, first_index)
     errors = [r for r in results if r.get('error')]
     viols = [r for r in results if r.get('violation')]
     known = load_known()
